@@ -162,7 +162,25 @@ def check(ck):
                 n2b += 1
                 own = isinstance(c.func, ast.Attribute) and c.func.attr in ("getheader", "getheaders", "read", "close", "isclosed") and \
                     all(a[0] == "call" and a[1][0] == "attr" and a[1][2] == "getresponse" for a in prov.value_alts(prov.origin(g, n_, c.func.value)))
-                ck.require(own or is_logging_call(c), "C19.2", "%s: `%s` on the non-200 path" % (q.fn(fs), dump(c)[:40]), "accessor of the own response",
+                def _harmless_helper(c_):
+                    # a package helper that itself only uses the accessors of the response it is given (and builtins / logging)
+                    hf = prog.resolve_call(fs, c_)
+                    if not hasattr(hf, "node"):
+                        return False
+                    if not any(all(a[0] == "call" and a[1][0] == "attr" and a[1][2] == "getresponse" for a in prov.value_alts(prov.origin(g, n_, x_))) for x_ in c_.args):
+                        return False
+                    for cc in [x for x in ast.walk(hf.node) if isinstance(x, ast.Call)]:
+                        if is_logging_call(cc):
+                            continue
+                        if isinstance(cc.func, ast.Name) and cc.func.id in ("print", "repr", "str", "len", "bool", "isinstance", "int"):
+                            continue
+                        if isinstance(cc.func, ast.Attribute) and cc.func.attr in ("getheader", "getheaders", "read", "close", "isclosed") and \
+                                isinstance(cc.func.value, ast.Name) and cc.func.value.id in hf.params:
+                            continue
+                        return False
+                    return True
+                closes_self = dump(c.func) == "self.close" and not c.args      # (dropping the connection of a failed exchange: C19.1's own remedy)
+                ck.require(own or is_logging_call(c) or closes_self or _harmless_helper(c), "C19.2", "%s: `%s` on the non-200 path" % (q.fn(fs), dump(c)[:40]), "accessor of the own response",
                            "`%s` runs between the status test and `raise TransportError`: if it raises (a body that does not decode, an "
                            "unexpected type), the caller gets that exception instead of the TransportError carrying URL and status"
                            % dump(c)[:60], q.loc(fs, n_))
@@ -179,40 +197,56 @@ def check(ck):
     # ---- C19.5 the drain of a non-200 reply cannot wait for the end of the stream -----------------------------------------------
     # response.read() without a declared length reads until the peer closes: on the error path it may only run when the
     # reply declares a Content-Length, i.e. under the true edge of getheader("content-length"[, <falsy default>]).
-    n5 = 0
-    for n in g.live_nodes():
-        for c in node_calls(n):
-            if not (isinstance(c.func, ast.Attribute) and c.func.attr in ("read", "readlines", "readline", "readinto", "read1")):
+    n5 = [0]
+
+    def _scan(fs, g, d, is_resp):
+      for n in g.live_nodes():
+          for c in node_calls(n):
+              if not (isinstance(c.func, ast.Attribute) and c.func.attr in ("read", "readlines", "readline", "readinto", "read1")):
+                  continue
+              t = prov.origin(g, n, c.func.value)
+              if not all(is_resp(a) for a in prov.value_alts(t)):
+                  continue
+              n5[0] += 1
+              ok5, why = False, "the read is not guarded by a Content-Length test"
+              for (tst, pol) in q.guards_of(g, n, d):
+                  if isinstance(tst, ast.Call) and isinstance(tst.func, ast.Attribute) and tst.func.attr == "getheader" and tst.args:
+                      try:
+                          nm = prog.const("jsonrpc", tst.args[0])
+                      except AnalysisError:
+                          nm = None
+                      if not (isinstance(nm, str) and nm.lower() == "content-length"):
+                          continue
+                      dflt = tst.args[1] if len(tst.args) > 1 else kwarg(tst, "default", 1)
+                      try:
+                          dv = prog.const("jsonrpc", dflt) if dflt is not None else None
+                          known = True
+                      except AnalysisError:
+                          dv, known = None, False
+                      if pol and known and not dv:
+                          ok5 = True
+                      elif pol:
+                          why = "the Content-Length test has the default `%s`, which is true when the header is absent" % dump(dflt)
+              ck.require(not c.args and not c.keywords, "C19.5", "%s: `%s` drains the whole body" % (q.fn(fs), dump(c)), "read() without a size",
+                         "`%s` reads only a part of the error body: what is left stays on the kept-alive connection and the next call on "
+                         "this proxy fails (ResponseNotReady) or reads the remainder as its own reply" % dump(c), q.loc(fs, n))
+              ck.require(ok5, "C19.5", "%s: `%s` on the error path" % (q.fn(fs), dump(c)), "only when a Content-Length is declared",
+                         "a non-200 reply is drained with `%s` although %s: for a reply without Content-Length on a connection the peer keeps "
+                         "open the call blocks until the end of the stream - it neither returns nor raises TransportError" % (dump(c), why), q.loc(fs, n))
+    _own = lambda a: a[0] == "call" and a[1][0] == "attr" and a[1][2] == "getresponse"      # noqa: E731
+    _scan(fs, g, d, _own)
+    # helpers of the error path that are handed the response (a reader of the error page): the same guard inside them
+    for n_h in g.live_nodes():
+        for c_h in node_calls(n_h):
+            hf_ = prog.resolve_call(fs, c_h)
+            if not hasattr(hf_, "node") or hf_.fq == fs.fq:
                 continue
-            t = prov.origin(g, n, c.func.value)
-            if not all(a[0] == "call" and a[1][0] == "attr" and a[1][2] == "getresponse" for a in prov.value_alts(t)):
-                continue
-            n5 += 1
-            ok5, why = False, "the read is not guarded by a Content-Length test"
-            for (tst, pol) in q.guards_of(g, n, d):
-                if isinstance(tst, ast.Call) and isinstance(tst.func, ast.Attribute) and tst.func.attr == "getheader" and tst.args:
-                    try:
-                        nm = prog.const("jsonrpc", tst.args[0])
-                    except AnalysisError:
-                        nm = None
-                    if not (isinstance(nm, str) and nm.lower() == "content-length"):
-                        continue
-                    dflt = tst.args[1] if len(tst.args) > 1 else kwarg(tst, "default", 1)
-                    try:
-                        dv = prog.const("jsonrpc", dflt) if dflt is not None else None
-                        known = True
-                    except AnalysisError:
-                        dv, known = None, False
-                    if pol and known and not dv:
-                        ok5 = True
-                    elif pol:
-                        why = "the Content-Length test has the default `%s`, which is true when the header is absent" % dump(dflt)
-            ck.require(not c.args and not c.keywords, "C19.5", "%s: `%s` drains the whole body" % (q.fn(fs), dump(c)), "read() without a size",
-                       "`%s` reads only a part of the error body: what is left stays on the kept-alive connection and the next call on "
-                       "this proxy fails (ResponseNotReady) or reads the remainder as its own reply" % dump(c), q.loc(fs, n))
-            ck.require(ok5, "C19.5", "%s: `%s` on the error path" % (q.fn(fs), dump(c)), "only when a Content-Length is declared",
-                       "a non-200 reply is drained with `%s` although %s: for a reply without Content-Length on a connection the peer keeps "
-                       "open the call blocks until the end of the stream - it neither returns nor raises TransportError" % (dump(c), why), q.loc(fs, n))
+            params_h = [p_ for p_ in hf_.params if p_ != "self"]
+            for i_h, a_h in enumerate(c_h.args):
+                if i_h < len(params_h) and all(_own(x) for x in prov.value_alts(prov.origin(g, n_h, a_h))):
+                    gh_ = cfg_of(hf_)
+                    _scan(hf_, gh_, dominators(gh_), lambda a, p_=params_h[i_h]: a == ("param", p_))
+    n5 = n5[0]
     ck.ok("C19.5", "%s: reads of the response on the error path" % q.fn(fs), "%d examined" % n5, q.loc(fs, fs.node))
     ck.floor("C19.5", 1)
 
